@@ -247,6 +247,11 @@ class NumpyModel:
 
     def idx_binop(self, o, l, r):
         li, ri = l.idx, r.idx
+        # group-local numbers shifted by something that is not a literal: no longer local numbers, not provably global ones
+        if o in ('+', '-') and li == ('LOCALSITE',) and ri is None and not has_const(r):
+            return ('MIX', li, ('OFFSET',))
+        if o == '+' and ri == ('LOCALSITE',) and li is None and not has_const(l):
+            return ('MIX', ri, ('OFFSET',))
         if li is not None and ri is None and o in ('+', '-') and has_const(r):
             if li[0] == 'FRAME':
                 return li
@@ -370,6 +375,8 @@ class NumpyModel:
                     interp.emit('frame_mix', node, left=gl, right=gr)
                     return None
                 pv = 'vec' if o == '-' else ('pos' if 'pos' in (gl[2], gr[2]) else 'vec')
+                if o == '-' and gl[2] == 'pos' and gr[2] == 'pos':
+                    return ('CART', gl[1], 'rawdiff')  # difference of two positions without any periodic reduction
                 return ('CART', gl[1], pv)
             if is_cart(gl) and gr is None:
                 return gl
@@ -390,6 +397,9 @@ class NumpyModel:
         if o in ('*', '/', '//', '@'):
             if o == '@':
                 return self.geo_dot(interp, l, r, node)
+            if o == '*' and ((is_fractional(gl) and r.tuple_of == 'lattice.lengths') or (is_fractional(gr) and l.tuple_of == 'lattice.lengths')):
+                interp.emit('ortho_assumption', node, left=l, right=r)
+                return ('CART', 'ORTHO', 'vec')
             if gl is not None and gr is None:
                 g, other = gl, r
             elif gr is not None and gl is None and o == '*':
@@ -479,6 +489,13 @@ class NumpyModel:
                 return None
         if ga is not None and ga[0] == 'COV' and is_fractional(gb):
             return ('DIST2',)
+        if ga is not None and ga[0] == 'LATMAT' and (is_fractional(gb) or (gb is not None and gb[0] == 'SYMIMG')):
+            # rows of the matrix are the lattice vectors: Cartesian = v @ M = M^T v.  M @ v needs the transposed matrix
+            vt = bool(b.transposed)
+            if bool(a.transposed):
+                return ('CART', ga[1], 'pos' if gb[0] != 'FDIFF' else 'vec')
+            interp.emit('wrong_convention', node, a=a, b=b)
+            return ('CART', 'WRONG', 'vec')
         if ga is not None and ga[0] == 'LATMAT' and gb is not None and gb[0] == 'LATMAT':
             # rows of the matrix are the lattice vectors: the metric tensor is M M^T (not M^T M)
             at, bt = bool(a.transposed), bool(b.transposed)
@@ -693,7 +710,7 @@ class NumpyModel:
         for it in items:
             if it.ty in ('ndarray', 'list') or it.dtype == 'bool':
                 fancy = True
-        out = base.only('ty', 'geo', 'idx', 'mono', 'prov', 'store', 'cols', 'colvals', 'taint', 'dtype', 'enc', 'origin')
+        out = base.only('ty', 'geo', 'idx', 'mono', 'prov', 'store', 'cols', 'colvals', 'taint', 'dtype', 'enc', 'origin', 'fft', 'mono_unknown')
         if all(i.ty == 'slice' for i in items):
             out = out.w(linspace=base.linspace, lin_n=base.lin_n, arange=base.arange, sorted=base.sorted)
             if base.counts_of is not None or base.unique_of is not None:
@@ -759,6 +776,11 @@ class NumpyModel:
     # ------------------------------------------------------------------ stores
     def on_store(self, interp, st, frame, kind, target, base, idx, value, stmt=None):
         interp.emit('store', target, kind=kind, base=base, index=idx, value=value, stmt=stmt)
+        if kind == 'aug' and idx is not None and base is not None and base.ty == 'ndarray':
+            items = idx.elts if (idx.ty == 'tuple' and idx.elts is not None) else [idx]
+            if any(i.ty == 'ndarray' and i.dtype != 'bool' for i in items):
+                # a[idx] += v is buffered: an index that occurs several times is incremented only once
+                interp.emit('fancy_aug', target, base=base, index=idx, value=value)
 
     def store_subscript(self, interp, st, frame, target, base, idx, value, aug):
         tv = target.value
